@@ -14,8 +14,8 @@ with open('/verif/seeded/RESULTS.md', 'w') as f:
     f.write('Each directory holds `patch.diff` (apply with `git -C /repo apply`, undo with `git -C /repo checkout -- .`), the author\'s demonstration, `NOTES.md` and `meta.json`.\n')
     f.write('`python3 tools/seeded.py seeded/<name> --demo` applies the change, runs the repository\'s own suites (must pass), the demonstration (must fail) and the quick check(s), and restores `/repo`.\n\n')
     caught = sum(1 for r in rows if r[3] == 'caught')
-    still = sum(1 for r in rows if r[4].startswith('NOT caught'))
-    f.write('%d changes; caught by the quick tier as it stood when the change arrived: %d; missed at first and caught after strengthening the check: %d; not caught yet: %d.\n\n' % (len(rows), caught, len(rows) - caught - still, still))
+    still = sum(1 for r in rows if (r[4].startswith('NOT caught') or 'THOROUGH tier' in r[4]))
+    f.write('%d changes; caught by the quick tier as it stood when the change arrived: %d; missed at first and caught after strengthening the check: %d; not caught by the quick tier yet: %d.\n\n' % (len(rows), caught, len(rows) - caught - still, still))
     f.write('| change | property | needs to manifest | first contact | detected by |\n|---|---|---|---|---|\n')
     for r in rows:
         f.write('| %s | %s | %s | %s | %s |\n' % tuple(x.replace('|', '/') for x in r))
